@@ -209,6 +209,11 @@ def main(argv=None):
     text = skewed_text()
     core.guarded(rep, text, check_text, rep, drv, rng, text)
     rep.case(key=text, nontrivial=True)
+    # right-hand sides that are relations (numbers 1 / 0): as an intermediate that is read, and as the derivative of a flag state
+    text = ("states(v=1, above=0.25)\nparameters(th=0.5, k=2)\ng = Gt(v, th)\nh = And(Lt(v, 3), Gt(above, -1))\n"
+            "dv_dt = -k*v + 3*g - h\ndabove_dt = Gt(v, th)\n")
+    core.guarded(rep, text, check_text, rep, drv, rng, text)
+    rep.case(key=text, nontrivial=True)
     gen = lang.Gen(rng, max_depth=3, p_cond=0.15, funcs=["exp", "cos", "sin", "atan", "log", "sqrt", "abs", "tan"], allow_mod=False)
     n = a.n or (24 if a.tier == "quick" else 500)
     for i in range(n):
